@@ -211,14 +211,14 @@ fn check(c: &Case, info: &mut Info) -> Result<(), String> {
 /// Raw copies of ZIP64-sized source entries (hand-laid-out sparse source: declared uncompressed /
 /// compressed sizes on either side of 4 GiB, payload a zero run that is never decoded) into a writer on
 /// a sparse sink, between two normally written neighbours.
-fn check_straddle(sizes: &[(u64, u64)]) -> Result<(), String> {
+fn check_straddle(sizes: &[(u64, u64)], dst_start: u64) -> Result<(), String> {
     use crate::sio::{Shared, SparseFile};
     use std::io::{Seek, SeekFrom, Write};
     let (src, expect) = super::c08::foreign_large2(sizes);
     let mut rd = src.clone();
     rd.seek(SeekFrom::Start(0)).map_err(|e| e.to_string())?;
     let mut za = zip::ZipArchive::new(rd).map_err(|e| format!("harness: source unreadable: {e}"))?;
-    let dst = Shared::new(SparseFile::new());
+    let dst = Shared::new(SparseFile::at_position(dst_start));
     let o = zip::write::FileOptions::default().compression_method(zip::CompressionMethod::Deflated).last_modified_time(zip::DateTime::default());
     {
         let mut w = std::mem::ManuallyDrop::new(ZipWriter::new(dst.clone()));
@@ -233,7 +233,7 @@ fn check_straddle(sizes: &[(u64, u64)]) -> Result<(), String> {
         w.finish().map_err(|e| format!("finish: {e}"))?;
     }
     // independent strict view: local header == central record (sizes incl. the local ZIP64 record)
-    let p = parse::parse(&dst, parse::Opts { lenient: false, allow_leading_gap: false, decode_limit: 0, allow_trailing: false }).map_err(|e| format!("destination archive is not valid: {e}"))?;
+    let p = parse::parse(&dst, parse::Opts { lenient: false, allow_leading_gap: dst_start > 0, decode_limit: 0, allow_trailing: false }).map_err(|e| format!("destination archive is not valid: {e}"))?;
     if p.entries.len() != expect.len() + 2 {
         return Err(format!("destination has {} entries, expected {}", p.entries.len(), expect.len() + 2));
     }
@@ -320,17 +320,20 @@ pub fn run(ctx: &mut Ctx) {
     );
     // ZIP64-sized sources whose two sizes lie on different sides of 4 GiB
     #[derive(Clone, Debug, Serialize, Deserialize, Hash)]
-    struct Straddle(Vec<(u64, u64)>);
+    struct Straddle(Vec<(u64, u64)>, #[serde(default)] u64);
     const G: u64 = 1 << 32;
     let sets: Vec<Vec<(u64, u64)>> = ctx.q(
         vec![vec![((5 << 30) + 123, 1500)], vec![(G - 1, 77), (G, 78), (G + 1, 79), (G - 2, 80)], vec![(0xFFFF_FFFF, 0), (1, 1)]],
         vec![vec![((5 << 30) + 123, 1500)], vec![(G - 1, 77), (G, 78), (G + 1, 79), (G - 2, 80)], vec![(0xFFFF_FFFF, 0), (1, 1)], vec![(100, G + 10)], vec![(G + 1, G + 1), (3, 3)], vec![(G - 1, G - 1)]],
     );
     ctx.max_shrink_iters = 0;
-    ctx.enumerate::<Straddle>("straddle", sets.len() as u64, &|i| Straddle(sets[i as usize].clone()), &|s: &Straddle, info: &mut Info| {
+    // each set is copied into a destination starting at 0 and into one starting beyond 4 GiB (header
+    // offsets then need ZIP64 as well)
+    ctx.enumerate::<Straddle>("straddle", sets.len() as u64 * 2, &|i| Straddle(sets[i as usize / 2].clone(), if i % 2 == 0 { 0 } else { (1u64 << 32) + 4242 }), &|s: &Straddle, info: &mut Info| {
         info.nontrivial = true;
         info.label_if(s.0.iter().any(|(u, c)| (*u >= G - 1) != (*c >= G - 1)), "sizes-straddle-4GiB");
-        match catch(|| check_straddle(&s.0)) {
+        info.label_if(s.1 > 0, "destination-beyond-4GiB");
+        match catch(|| check_straddle(&s.0, s.1)) {
             Ok(r) => Verdict::from_result(r),
             Err(p) => Verdict::Fail(format!("PANIC: {p}")),
         }
